@@ -74,7 +74,20 @@ def run_check(prop: str, tier: str, repo: str = REPO, quiet: bool = False, write
             if len(ctx.instances) == n0 and not any(x.startswith(f"{clause_id}:") for x in errors):
                 errors.append(f"{clause_id}: ({title}) produced no rule instance - it would pass vacuously")
         from .report import VIOLATION as _V, known_match as _km, load_known as _lk
+        from .opaque import residuals_for as _residuals_for
         _known = _lk()
+        # a mismatch on a function whose normalised body still holds constructs the rules cannot see through (a private helper handed on
+        # as a value, a call through a table of callables, a private method or class that was not dissolved) is an unrecognised shape,
+        # not a definite violation
+        for inst in ctx.instances:
+            if inst.verdict == _V and _km(inst, prop, _known) is None:
+                res = [r for r in _residuals_for(program, inst.module, inst.func)
+                       if not any(r.startswith(f"private helper {h} ") for h in ctx.seen_through)]
+                if res:
+                    inst.verdict = OBSERVATION
+                    inst.detail = f"[unrecognised shape: {'; '.join(res[:3])}] " + inst.detail
+                    errors.append(f"{inst.clause}: {inst.module}:{inst.func} [{inst.construct[:80]}] does not match, but the function still holds "
+                                  f"constructs the rules cannot see through ({'; '.join(res[:3])})")
         if errors and not any(i.verdict == _V and _km(i, prop, _known) is None for i in ctx.instances):
             raise AnalysisError("; ".join(errors))
         for e in errors:
